@@ -258,6 +258,11 @@ func hostExtDirs(repo string) map[string]string {
 	return map[string]string{"state": repo + "/state", "statedb": repo + "/state/statedb"}
 }
 
+// Callbacks that contract code must not be able to call with arguments of its choice: only the C glue calls
+// them (pcall wrappers, LuaJIT view bracket hooks).  Their C callers are emitted as `cInternalCallers`.
+var hostInternalCallbacks = map[string]bool{"luaClearRecovery": true, "luaDropEvent": true, "luaSetRecoveryPoint": true,
+	"luaViewStart": true, "luaViewEnd": true}
+
 // hostFiles: the analysed files of /repo/contract.
 var hostFiles = []string{"vm.go", "vm_callback.go", "vm_state.go"}
 
